@@ -36,6 +36,9 @@ pub struct Scn {
     /// all n! orders are run for n up to this bound (5 quick, 6 thorough)
     #[serde(default = "five")]
     pub exhaustive_upto: usize,
+    /// a <defaults> block ahead of the siblings adds offsets to rects and circles
+    #[serde(default)]
+    pub defaults: bool,
 }
 
 fn five() -> usize {
@@ -89,7 +92,7 @@ fn rel_node(rng: &mut Rng, id: &str, r: &str, r2: &str) -> (String, String, bool
     let loc2 = *rng.pick(LOCS);
     let dir = *rng.pick(&["h", "H", "v", "V"]);
     // returns (kind, xml, uses_second_ref)
-    match rng.below(37) {
+    match rng.below(42) {
         0 => ("rel-dir-wh".into(), format!("<rect id=\"{id}\" xy=\"#{r}|{dir} {g}\" wh=\"{w} {h}\"/>"), false),
         1 => (
             "rel-dir-longsize".into(),
@@ -253,12 +256,44 @@ fn rel_node(rng: &mut Rng, id: &str, r: &str, r2: &str) -> (String, String, bool
             format!("<for data=\"3, 7\" var=\"z{id}\" idx-var=\"j{id}\"><rect id=\"{id}r$j{id}\" xy=\"#{r}|{dir} $z{id}\" wh=\"{w} {h}\"/></for>"),
             false,
         ),
+        36 => (
+            // positioned through x/y although the element type has no such attributes
+            "rel-polyline-xy".into(),
+            format!("<polyline id=\"{id}\" points=\"0 0 {w} {h}\" x=\"#{r}~x2\" y=\"{g}\"/>"),
+            false,
+        ),
+        37 => (
+            "rel-path-xy".into(),
+            format!("<path id=\"{id}\" d=\"M 0 0 h {w} v {h} z\" x=\"{{{{#{r}~x + {g}}}}}\" y=\"#{r2}~y2\"/>"),
+            true,
+        ),
+        38 => (
+            // the element's extent depends on a clip path written after it
+            "rel-clipped".into(),
+            format!("<rect id=\"{id}\" xy=\"{g} {g}\" wh=\"40 30\" clip-path=\"url(#cp{id})\"/><clipPath id=\"cp{id}\"><rect xy=\"#{r}@{loc}\" wh=\"{w} {h}\"/></clipPath>"),
+            false,
+        ),
+        39 => (
+            "rel-use-centered".into(),
+            format!("<use id=\"{id}\" href=\"#{r}\" cxy=\"{w} {h}\"/>"),
+            false,
+        ),
+        40 => (
+            "rel-reuse-centered".into(),
+            format!("<reuse id=\"{id}\" href=\"#{r}\" cxy=\"{w} {h}\"/>"),
+            false,
+        ),
         _ => (
             "rel-reuse".into(),
             format!("<reuse id=\"{id}\" href=\"#tpl\" xy=\"#{r}|{dir} {g}\"/>"),
             false,
         ),
     }
+}
+
+fn rel_node_plain(id: &str, r: &str, rng: &mut Rng) -> (String, String) {
+    let (w, h, g) = (n(rng, 2, 20), n(rng, 2, 20), n(rng, 0, 8));
+    ("rel-dir-wh".into(), format!("<rect id=\"{id}\" xy=\"#{r}|h {g}\" wh=\"{w} {h}\"/>"))
 }
 
 fn perms(nn: usize) -> Vec<Vec<usize>> {
@@ -320,6 +355,9 @@ pub fn orders_of(scn: &Scn) -> (Vec<Vec<usize>>, bool) {
 
 pub fn render_doc(scn: &Scn, order: &[usize]) -> String {
     let mut s = String::from("<svg>\n  <specs><rect id=\"tpl\" wh=\"3 2\"/></specs><var k=\"7\"/>\n");
+    if scn.defaults {
+        s.push_str("  <defaults><rect dx=\"3\"/><circle dy=\"2\"/><_ match=\"ellipse line\" dxy=\"1 -1\"/></defaults>\n");
+    }
     for i in order {
         s.push_str("  ");
         s.push_str(&scn.nodes[*i].xml);
@@ -450,7 +488,17 @@ impl Engine for C10 {
                 // bias towards chains: the most recent node is the likeliest target
                 let d1 = if w.chance(1, 2) { i - 1 } else { w.usize(i) };
                 let d2 = w.usize(i);
-                let (kind, xml, two) = rel_node(&mut w, &id, &nodes[d1].id.clone(), &nodes[d2].id.clone());
+                let (mut kind, mut xml, mut two) = rel_node(&mut w, &id, &nodes[d1].id.clone(), &nodes[d2].id.clone());
+                // a <use>/<reuse> OF a clipped element is not generated: svgdx's notion of the
+                // extent of such an instance differs between its own code paths (observed, see
+                // DESIGN.md §9.3), which is about clipping, not about forward references
+                let centered_on_instance = kind.contains("centered") && (nodes[d1].kind.contains("use") || nodes[d1].kind.contains("clipped"));
+                if centered_on_instance || (kind.contains("use") && (nodes[d1].kind.starts_with("rel-clipped") || nodes[d2].kind.starts_with("rel-clipped"))) {
+                    let r = rel_node_plain(&id, &nodes[d1].id.clone(), &mut w);
+                    kind = r.0;
+                    xml = r.1;
+                    two = false;
+                }
                 let mut deps = vec![d1];
                 if two && d2 != d1 {
                     deps.push(d2);
@@ -575,6 +623,7 @@ impl Engine for C10 {
             perm_seed: w.next_u64(),
             orders: None,
             exhaustive_upto: if tier == Tier::Thorough { 6 } else { 5 },
+            defaults: index % 7 == 3,
         })
         .unwrap()
     }
